@@ -497,7 +497,11 @@ func (vc *VC) ordinalOf(ins ssa.Instruction, name string) int {
 				switch x := x.(type) {
 				case ssa.CallInstruction:
 					c := x.Common()
-					if _, isB := c.Value.(*ssa.Builtin); isB {
+					if bi, isB := c.Value.(*ssa.Builtin); isB {
+						if bi.Name() == "append" || bi.Name() == "delete" {
+							counts[bi.Name()]++
+							vc.staticOrd[x] = counts[bi.Name()]
+						}
 						continue
 					}
 					n, _ = vc.calleeName(c)
@@ -970,6 +974,10 @@ func (vc *VC) builtin(ins *ssa.Call, b *ssa.Builtin) {
 
 func (vc *VC) appendBuiltin(ins *ssa.Call) {
 	args := ins.Call.Args
+	if vc.hasSite("append", vc.ordinalOf(ins, "append")) {
+		am := map[string]sval{"arg0": {term: vc.val(args[0]), typ: args[0].Type()}, "arg1": {term: vc.val(args[1]), typ: args[1].Type()}}
+		vc.siteClauses("append", vc.ordinalOf(ins, "append"), "site-requires", am, ins.Pos())
+	}
 	s, t := vc.val(args[0]), vc.val(args[1])
 	st, ok := ins.Type().Underlying().(*types.Slice)
 	if !ok {
@@ -1286,9 +1294,26 @@ func (vc *VC) deferLoopRule(ci *callInfo) {
 	}
 	sub := *ci
 	sub.guard = ""
+	preD := vc.st
 	vc.callEffect(&sub, dfc)
 	if vc.st.prev != nil {
 		vc.st.havocKeys[kRan] = true
+	}
+	// ghost variables every single deferred call leaves as it found them ("v == old(v)") are unchanged overall
+	if dfc != nil && vc.st != preD {
+		for _, e := range dfc.Ensures {
+			if b, ok := e.Expr.(*EBinary); ok && b.Op == "==" {
+				if id, ok := b.X.(*EIdent); ok {
+					if oc, ok := b.Y.(*ECall); ok && oc.Fun == "old" && len(oc.Args) == 1 {
+						if id2, ok := oc.Args[0].(*EIdent); ok && id2.Name == id.Name {
+							if key, gd, ok := vc.ghostKey(id.Name); ok && gd != nil && gd.Kind == "var" {
+								vc.st.set(key, preD.get(key))
+							}
+						}
+					}
+				}
+			}
+		}
 	}
 	ranT := vc.st.get(kRan)
 	var bs, idx []string
